@@ -23,6 +23,7 @@ type PathOutcome struct {
 	ExitCode  int
 	Decisions int
 	Notes     []string
+	Debug     []string
 }
 
 // NewEngine creates an engine over prog and runs the package initialisers reachable from
@@ -223,6 +224,8 @@ func (e *Engine) RunPath(fn *ssa.Function, args []V, item WorkItem) (out PathOut
 	out.Steps = e.steps
 	out.Decisions = len(e.decisions)
 	out.Notes = e.notes
+	out.Debug = e.debugOut
+	e.debugOut = nil
 	for _, v := range e.pathVars {
 		out.VarNames = append(out.VarNames, v.Name)
 	}
